@@ -55,11 +55,12 @@ Dest(e, s) ==
     [] e \in {"Restart","Opened","SetDataLimit","SetRequiresFinalization"} -> "REC"
     [] e = "Cancel" -> "Cancelling"
     [] e = "Error"  -> "Failing"
-    [] e = "DataReceived" -> "NC"
+    [] e = "DataReceived" -> "REC"
     [] e \in ProgressEvents -> IF s \in Transferring THEN "NC" ELSE "INV"
     [] e \in {"DataSent","DataQueued"} -> IF s \in Transferring \cup {"TransferFinished"} THEN "NC" ELSE "INV"
-    [] e \in ErrNotice -> "NC"
-    [] e \in {"NewVoucher","NewVoucherResult","CompleteCleanupOnRestart"} -> "NC"
+    [] e \in ErrNotice -> "REC"
+    [] e \in {"NewVoucher","NewVoucherResult"} -> "REC"
+    [] e = "CompleteCleanupOnRestart" -> "NC"
     [] e = "PauseInitiator" -> IF s \in PauseStates THEN "REC" ELSE "INV"
     [] e = "PauseResponder" -> IF s \in PauseStates \cup {"TransferFinished"} THEN "REC" ELSE "INV"
     [] e = "DataLimitExceeded" -> IF s \in PauseStates \cup {"ResponderCompleted","ResponderFinalizing"} THEN "REC" ELSE "INV"
